@@ -53,6 +53,8 @@ fn base_cfg(tier: Tier, index: u64) -> HistCfg {
         special_keys: false,
         default_table: false,
         big_table: None,
+        empty_mid: false,
+        empty_end: false,
     };
     // every 12th case: hundreds of keys, so that the tiny tables of the tuple carry chains
     // of several hundred entries
